@@ -678,4 +678,83 @@ def notCase (thr : Nat) (hosts pats : List Bytes) (rhost path esc : Bytes) : Hos
   | .dup => .dup
   | .res b => .res (!(b || pathCase pats path esc))
 
+/-! ### host matching through the PROVISIONED SERVER (app.go / autohttps.go glue)
+
+`App.Provision` → `automaticHTTPSPhase1`: the route matchers are provisioned
+(`MatchHost.Provision`, above), then phase 1 walks over every provisioned `*MatchHost` and
+expands the GLOBAL placeholders of each entry (`repl.ReplaceOrErr(d, true, false)`: an
+`{env.…}` that evaluates to the empty string is an error, request placeholders are left
+alone) to collect the server's domain names.  It only READS the slice.  At request time
+`MatchWithError` expands every visited entry with the request's replacer
+(`repl.ReplaceAll(host, "")`) before comparing it. -/
+
+def cRBrace : UInt8 := 125
+
+/-- the text up to the first `}` and what follows it -/
+def takeKey : Bytes → Option (Bytes × Bytes)
+  | [] => none
+  | c :: r =>
+    if c = cRBrace then some ([], r)
+    else match takeKey r with
+      | some (k, rest) => some (c :: k, rest)
+      | none => none
+
+/-- `Replacer.ReplaceAll(s, "")` on entries whose braces are well-formed placeholders:
+    `look key` is the value (empty for unknown / unset) -/
+def expand (look : Bytes → Bytes) : Nat → Bytes → Bytes
+  | 0, s => s
+  | _ + 1, [] => []
+  | fuel + 1, c :: r =>
+    if c = cBrace then
+      match takeKey r with
+      | some (k, rest) => look k ++ expand look fuel rest
+      | none => c :: r
+    else c :: expand look fuel r
+
+/-- the placeholder keys of an entry -/
+def keysOf : Nat → Bytes → List Bytes
+  | 0, _ => []
+  | _ + 1, [] => []
+  | fuel + 1, c :: r =>
+    if c = cBrace then
+      match takeKey r with
+      | some (k, rest) => k :: keysOf fuel rest
+      | none => []
+    else keysOf fuel r
+
+/-- `automaticHTTPSPhase1` as far as a provisioned host matcher is concerned: `none` = it
+    returns an error (a global placeholder of an entry evaluates to the empty string);
+    otherwise the slice it leaves behind — the slice it was given -/
+def autohttpsHostView (emptyGlobal : Bytes → Bool) (m : List Bytes) : Option (List Bytes) :=
+  if m.any (fun e => (keysOf e.length e).any emptyGlobal) then none else some m
+
+/-- the `outer:` loop with the per-request expansion `f` of each visited entry -/
+def hostLoopX (f : Bytes → Bytes) (large : Bool) (reqHost : Bytes) : List Bytes → Bool
+  | [] => false
+  | e :: es =>
+    if large && !fuzzy e then false
+    else entryMatches reqHost (f e) || hostLoopX f large reqHost es
+
+/-- `MatchHost.MatchWithError` with the replacer as the parameter `f` -/
+def matchHostX (f : Bytes → Bytes) (thr : Nat) (m : List Bytes) (rhost : Bytes) : Bool :=
+  if useFast thr m (stripPort rhost) && fastHit m (lower (stripPort rhost)) then true
+  else hostLoopX f (useFast thr m (stripPort rhost)) (stripPort rhost) m
+
+inductive SrvRes where
+  | dup           -- Provision: repeated host
+  | phase1Err     -- automatic HTTPS phase 1: empty global placeholder
+  | res (b : Bool)
+deriving DecidableEq, Repr
+
+/-- load the config (provision matchers, automatic HTTPS phase 1), then serve one request:
+    does the route behind the host matcher answer? -/
+def srvHostCase (thr : Nat) (l : List Bytes) (look : Bytes → Bytes) (emptyGlobal : Bytes → Bool)
+    (rhost : Bytes) : SrvRes :=
+  match provisionHost thr l with
+  | none => .dup
+  | some m =>
+    match autohttpsHostView emptyGlobal m with
+    | none => .phase1Err
+    | some m' => .res (matchHostX (fun e => expand look e.length e) thr m' rhost)
+
 end CaddyModel.C06
